@@ -228,12 +228,17 @@ def run(facts, res):
             pt = peel(t, stop_var=False)
             while pt[0] == "var":
                 pt = pt[3]
-            if pt[0] == "call" and callee_name(pt) in ("ne",) and any(x[0] == "upvar" and x[2] == "w" for x in walk(pt)):
-                ok = True
+            if pt[0] == "call" and callee_name(pt) in ("ne",):
+                # one side is the captured winner (its definition in the parent derives from get_winner)
+                for x in walk(pt):
+                    if x[0] == "upvar":
+                        for i, l in enumerate(gc.locals):
+                            if l.get("name") == x[2] and contains_call(du_of(gc).local_term(i, 12), "get_winner"):
+                                ok = True
         rt = du_of(gc).local_term(0, 30)
         names = [callee_name(x) for x in walk(rt) if x[0] == "call"]
         chain_ok = "get_leafs" in names and names.count("filter") == 1 and not (set(names) & {"take", "skip", "step_by"})
-        wdef = any(contains_call(du_of(gc).local_term(i, 12), "get_winner") for i, l in enumerate(gc.locals) if l.get("name") == "w")
+        wdef = ok
         res.instance("W4", "get_conflicting = get_leafs().filter(|r| winner != r): filter is `ne(winner, r)`: %s, single filter over the whole leaf set: %s, w = get_winner(): %s" % (ok, chain_ok, wdef), gc.loc())
         if not (ok and chain_ok and wdef):
             res.violation("W4", "get_conflicting|filter", "get_conflicting is no longer `leaves filtered by != winner`", gc.loc())
@@ -375,7 +380,7 @@ def _reach_helper_ok(h, facts, res):
             else:
                 # copied from the cache (`Some(&v) = cache.get(..)`) or from another tracked local
                 pt = peel(t)
-                if pt[0] == "call" and callee_name(pt) == "get" and any(x[0] == "param" and x[2] == "cache" for x in walk(pt)):
+                if pt[0] == "call" and callee_name(pt) == "get" and any(x[0] == "param" and "HashMap<" in h.local_ty(x[1]) for x in walk(pt)):
                     continue
                 if pt[0] in ("var", "cut", "phi"):
                     continue
